@@ -103,13 +103,23 @@ func childMain(chunkFile, resFile string) {
 	}
 }
 
+var sigSeen = map[string]int{}
+
 func emitCase(r *hx.Run, c caseSpec, res *caseResult) {
 	r.Case(c.Sub)
 	for _, l := range res.Lines {
 		r.Line(l[0], l[1])
 	}
 	for _, f := range res.Fails {
-		r.Fail(f.Oracle, f.Detail, f.Sig)
+		// the recorded Run finding is hit by hundreds of random cases: forward a few per signature so that the
+		// cap on findings cannot hide a different one
+		b, _ := json.Marshal(f.Sig)
+		sigSeen[string(b)]++
+		if sigSeen[string(b)] <= 25 {
+			r.Fail(f.Oracle, f.Detail, f.Sig)
+		} else {
+			r.Count("finding-not-forwarded:" + f.Sig["oracle"])
+		}
 	}
 	for k, n := range res.Counts {
 		r.CountN(k, n)
@@ -137,7 +147,7 @@ func crashedCase(c caseSpec, stderrTail string) *caseResult {
 		res.Lines = append(res.Lines, [2]string{"op " + op, "-"})
 	}
 	res.Lines[0] = [2]string{"mode conc", "ok"}
-	res.Lines = append(res.Lines, [2]string{"ev panic", "ok"}, [2]string{"check", "reject crash"})
+	res.Lines = append(res.Lines, [2]string{"ev panic", "ok"}, [2]string{"verdict", "reject crash"})
 	what := "panic in a goroutine started by the daemon (process died)"
 	first := ""
 	for _, l := range strings.Split(stderrTail, "\n") {
@@ -147,8 +157,22 @@ func crashedCase(c caseSpec, stderrTail string) *caseResult {
 			break
 		}
 	}
-	res.Fails = append(res.Fails, failRec{"C20-crash", what + ": " + first + " | script: " + strings.Join(c.Script, "; "),
-		map[string]string{"oracle": "crash", "api": "daemon", "what": "process-crash", "trigger": trigger}})
+	sig := map[string]string{"oracle": "crash", "api": "daemon", "what": "process-crash", "trigger": trigger}
+	// Run waits on the live per-order WaitGroups: a worker of such an order started after Run's copy can make
+	// Add/Done race that Wait ("WaitGroup misuse" / "WaitGroup is reused") - inside a daemon goroutine.
+	ranRun, lateAdd := false, false
+	for _, op := range c.Script {
+		if op == "go run" {
+			ranRun = true
+		} else if ranRun && (strings.HasPrefix(op, "bw ") || strings.HasPrefix(op, "go bw ") || strings.HasPrefix(op, "park ")) {
+			lateAdd = true
+		}
+	}
+	if strings.Contains(first, "WaitGroup") && lateAdd {
+		sig = map[string]string{"oracle": "crash", "api": "Run", "what": "waitgroup-panic", "trigger": "worker-added-after-run-snapshot"}
+	}
+	res.Fails = append(res.Fails, failRec{"C20-crash", what + ": " + first + " | script: " + strings.Join(c.Script, "; "), sig})
+	res.Lines = append(res.Lines, [2]string{"check", checkAnswer(res)})
 
 	return res
 }
@@ -225,4 +249,26 @@ func runAll(r *hx.Run, cases []caseSpec) {
 	}
 	os.Remove(filepath.Join(r.OutDir, "chunk.json"))
 	os.Remove(filepath.Join(r.OutDir, "chunk.res"))
+}
+
+// checkAnswer is the implementation column of the `check` line: the constant "accept" - so that a log the
+// Lean predicates reject shows up as a mismatch and its script lands in the replay file - except where the
+// only failing clause is the recorded symptom of Run waiting on the live WaitGroups (known finding), which the
+// Lean side answers identically.
+func checkAnswer(res *caseResult) string {
+	crashRun, other := false, false
+	for _, f := range res.Fails {
+		switch {
+		case f.Sig["oracle"] == "runwait":
+		case f.Sig["oracle"] == "crash" && f.Sig["api"] == "Run" && f.Sig["what"] == "waitgroup-panic":
+			crashRun = true
+		case strings.HasPrefix(f.Oracle, "C20-"):
+			other = true
+		}
+	}
+	if crashRun && !other {
+		return "reject crash"
+	}
+
+	return "accept"
 }
